@@ -29,7 +29,9 @@ pub struct TemplateCfg {
     pub state_early: bool,
 }
 
-pub const N_SHAPES: u8 = 10;
+pub const N_SHAPES: u8 = 11;
+/// the shape with a memoised constructor keyed by a node (`Incr`) chained on one keyed by a number
+pub const SHAPE_MEMO_CHAIN: u8 = 10;
 
 /// flips when the value that carries it is dropped
 #[derive(Clone)]
@@ -63,6 +65,8 @@ struct Built {
     writers: Vec<Box<dyn Fn(i64)>>,
     /// nodes that lost their last owner before the next stabilise: must be dead after it
     after_round: Rc<RefCell<Vec<Box<dyn Fn() -> usize>>>>,
+    /// (property, rule, detail) raised by the shape's own steps
+    errors: Rc<RefCell<Vec<(&'static str, &'static str, String)>>>,
 }
 
 fn probe<T: 'static>(b: &mut Built, i: &Incr<T>) {
@@ -97,7 +101,7 @@ fn join<T: Value>(incr: &Incr<Incr<T>>) -> Incr<T> {
 }
 
 fn build(state: &IncrState, shape: u8) -> Built {
-    let mut b = Built { handles: vec![], probes: vec![], tokens: vec![], writers: vec![], after_round: Rc::new(RefCell::new(vec![])) };
+    let mut b = Built { handles: vec![], probes: vec![], tokens: vec![], writers: vec![], after_round: Rc::new(RefCell::new(vec![])), errors: Rc::new(RefCell::new(vec![])) };
     match shape % N_SHAPES {
         0 => {
             // Var<Var<i64>>
@@ -317,6 +321,55 @@ fn build(state: &IncrState, shape: u8) -> Built {
             b.handles.push(Box::new(m));
             b.handles.push(Box::new(x));
         }
+        10 => {
+            // leaf: number -> node, double: node -> node (its table holds the leaf node as a key).
+            // Steps (one per write, a stabilise in between): 0 call both and keep the nodes,
+            // 1 drop the nodes, 2 call leaf again: with every reference gone and a stabilise run,
+            // the underlying function must be invoked again; then start over.
+            let x = state.var(1i64);
+            let xw = x.watch();
+            let calls = Rc::new(Cell::new(0u32));
+            let c2 = calls.clone();
+            let leaf = state.weak_memoize_fn(move |k: i64| {
+                c2.set(c2.get() + 1);
+                xw.map(move |v| v + k)
+            });
+            let double = state.weak_memoize_fn(|n: Incr<i64>| n.map(|v| v * 2));
+            let (leaf, double) = (RefCell::new(leaf), RefCell::new(double));
+            let slot: Rc<RefCell<Option<(Incr<i64>, Incr<i64>)>>> = Rc::new(RefCell::new(None));
+            let phase = Rc::new(Cell::new(0u32));
+            let after = b.after_round.clone();
+            let errors = b.errors.clone();
+            let x2 = x.clone();
+            b.writers.push(Box::new(move |v| {
+                let key = 1i64;
+                match phase.get() % 3 {
+                    0 => {
+                        let n = (leaf.borrow_mut())(key);
+                        let d = (double.borrow_mut())(n.clone());
+                        *slot.borrow_mut() = Some((n, d));
+                    }
+                    1 => {
+                        if let Some((n, d)) = slot.borrow_mut().take() {
+                            let (wn, wd) = (n.weak(), d.weak());
+                            after.borrow_mut().push(Box::new(move || wn.strong_count()));
+                            after.borrow_mut().push(Box::new(move || wd.strong_count()));
+                        }
+                    }
+                    _ => {
+                        let before = calls.get();
+                        let n = (leaf.borrow_mut())(key);
+                        if calls.get() == before {
+                            errors.borrow_mut().push(("C20", "memo-stale-hit", "every reference to the node made for this key was dropped and a stabilise ran, yet the memoised function returned a node without calling the underlying function".to_string()));
+                        }
+                        drop(n);
+                    }
+                }
+                phase.set(phase.get() + 1);
+                x2.set(v);
+            }));
+            b.handles.push(Box::new(x));
+        }
         _ => {
             // nested binds creating vars in their own scope
             let x = state.var(1i64);
@@ -345,11 +398,22 @@ fn build(state: &IncrState, shape: u8) -> Built {
 }
 
 pub fn gen_plan(seed: u64) -> Plan {
+    gen_plan_shape(seed, None)
+}
+
+pub fn gen_plan_shape(seed: u64, force: Option<u8>) -> Plan {
     let mut r = Rng::stream(seed, 1);
-    let shape = r.below(N_SHAPES as usize) as u8;
+    let drawn = r.below(N_SHAPES as usize) as u8;
+    let shape = force.unwrap_or(drawn);
     let n = r.range(2, 14) as usize;
     let mut acts = vec![XAct::Stabilise];
     while acts.len() < n {
+        if shape == SHAPE_MEMO_CHAIN {
+            // its steps need a stabilise after every write
+            acts.push(XAct::Write { v: r.range(-3, 8) });
+            acts.push(XAct::Stabilise);
+            continue;
+        }
         acts.push(match r.weighted(&[5, 4]) {
             0 => XAct::Write { v: r.range(-3, 8) },
             _ => XAct::Stabilise,
@@ -406,6 +470,9 @@ pub fn run_on_this_thread(plan: &Plan, keep_trace: bool) -> RunOutput {
                 _ => {}
             }
             log.push(format!("{:?}", a));
+            for (p, r, d) in built.errors.borrow_mut().drain(..) {
+                viol.push(Violation { property: p, rule: r, at: log.len(), detail: format!("shape {}: {}", cfg.shape % N_SHAPES, d) });
+            }
             let lines = crate::run::full_audit(&state, matches!(a, XAct::Stabilise));
             audits += 1;
             for l in lines {
